@@ -142,7 +142,11 @@ func (s *vScenario) do(q vReq) (ok2xx, changed, listShown bool) {
 			nonce, cipher = splitTok(ts)
 		}
 	}
-	cmd := fmt.Sprintf("api %s %s %s %s %s %s %s %s %s %s 600 %d %s %s", q.ep, vtf(bodyOk), vxs(d.session), vxs(d.username), vxs(d.password),
+	lifetimeS := int64(600)
+	if s.a.sessions != nil {
+		lifetimeS = int64(s.a.sessions.lifetime / time.Second) // the live value (the model is parametric in it)
+	}
+	cmd := fmt.Sprintf("api %s %s %s %s %s %s %s %s %s %s "+fmt.Sprint(lifetimeS)+" %d %s %s", q.ep, vtf(bodyOk), vxs(d.session), vxs(d.username), vxs(d.password),
 		vxs(d.oldpw), vxs(d.newpw), vtf(d.admin), vUsersTok(pre), vIssuedTok(s.sealed), now, vxb(nonce), vxb(cipher))
 	c.emit(cmd, fmt.Sprintf("%s %s %s %s", vtf(ok2xx), vtf(listShown), vtf(tokenIssued), vUsersTok(post)))
 	if tokenIssued {
@@ -238,7 +242,7 @@ func suiteV06(c *vctx) {
 			"not-base64":     "!!!:???",
 			"no-colon":       "Zm9vYmFy",
 			"short-nonce":    encTok(n[:5], ct),
-			"expired":        forged(fmt.Sprintf("root:true:%d", now-700)),
+			"expired":        forged(fmt.Sprintf("root:true:%d", now-int64(a.sessions.lifetime/time.Second)-100)),
 			"future":         forged(fmt.Sprintf("root:true:%d", now+60)),
 			"bit-flipped":    encTok(n, flip),
 			"other-instance": otherTok,
